@@ -59,6 +59,15 @@ PROPS["C14"] = {
             "(thorough: every residue) and of frames of 3 and 16 around k = 2^24 (quick 4, thorough all 19); thorough = additionally ONE object beyond 2^32 + 2^21 samples (f = 0.3, fs = 1e5) "
             "and four beyond 2^31 + 2^20 (integer f, random fractional f, -(fs/2 - 0.5), 1e-3), i.e. across the 32-bit signed and unsigned limits of the sample counter; 64 outputs "
             "around k = 2^16, 2^24, 2^31, 2^32 and at the end of every stream are recomputed by the model from the counter value (tunk). "
+            "Round-3 class. TUNER NEXT TO AN INTEGER f (the constructor's integer / non-integer decision; only an exactly integral f may restart the phase counter every fs samples): "
+            "f = k + d with k in {0, +-1, +-7, +-(fs/2 - 1), +-fs/4, +-fs/2 with the offset pointing inwards, 2 random} and d in {+-1 ulp of k, +-1e-12, +-1e-9, +-1e-7, +-5e-7, +-1e-6, "
+            "+-1e-5, +-1e-3}, fs in {8, 100, 1000, 8000} (thorough: + 9, 4099, one random rate); quick = a rotating third / fifth / seventeenth of the (k, d) grid per rate (about 150 cases, "
+            "every offset class about 10 times), thorough = the full grid; streams of 3..50 fs + ragged tail, and for |d| < 1e-8 at fs <= 1000 as many periods as make a lag of 2 pi d per "
+            "period exceed 5e-8 (up to 25000 fs at fs = 8; sample budget 2e5 / 1e6 per case); framings {one call, random cuts, frames of 0, 1, fs-1, fs, fs+1, random}; inputs of every "
+            "value class; EVERY sample against exp(2 pi i f k/fs) with f k/fs reduced mod 1 in 128-bit integer arithmetic, bound |x| (1e-9 + 4 eps phase); framed run bit-compared with a "
+            "one-call run; 18 / 90 cases through CORR (tun); the statistics tuner_near_integer_restart_drift_over_bound_* record by what factor a counter restart would have exceeded the "
+            "bound (>= 2.6e5 for |d| >= 1e-9, about 50 for 1e-12; one ulp is below the rounding of the phase itself and is tied by CORR only). One more long stream of this class "
+            "(fs = 8000, f = +-7 + d, 2^24 + 2^18 samples; thorough: fs = 8, f = 1 +- 1e-13, 2^31 + 2^20 samples). "
             "distinct = distinct protocol lines; non-trivial = all",
     "technique": "Lean 4 proof over hand-written state-explicit models (generic scalar; Float in the driver, R / C in the theorems) + own DFT lemma library "
                  "(inverse pair, conjugate symmetry, analytic-signal lemma) + differential correspondence on the real library + long-double oracle of the "
